@@ -137,6 +137,62 @@ func flatSources(s *control.SourceIndex) (J, J) {
 		"acc:BuildDependsIndep": depText(s.GetBuildDependsIndep())}, J{}
 }
 
+// flattenTwice parses once and projects the SAME parsed value twice: accessors must not disturb the fields
+// or each other (a second AbsFiles() call must answer like the first).
+func flattenTwice(kind, text string) (flat, acc, flat2, acc2 J, ok bool) {
+	defer func() {
+		if r := recover(); r != nil {
+			flat, acc, flat2, acc2, ok = J{}, J{}, J{}, J{}, false
+		}
+	}()
+	var project func() (J, J)
+	switch kind {
+	case "dsc":
+		d, err := control.ParseDsc(bufioReader(text), "/srv/pool/x.dsc")
+		if err != nil {
+			return J{}, J{}, J{}, J{}, false
+		}
+		project = func() (J, J) { return flatDSC(d) }
+	case "changes":
+		c, err := control.ParseChanges(bufioReader(text), "/srv/pool/x.changes")
+		if err != nil {
+			return J{}, J{}, J{}, J{}, false
+		}
+		project = func() (J, J) { return flatChanges(c) }
+	case "srcpara", "binpara":
+		doc := text
+		if kind == "binpara" {
+			doc = "Source: x\nMaintainer: m\n\n" + text
+		}
+		c, err := control.ParseControl(bufioReader(doc), "/srv/x/debian/control")
+		if err != nil || (kind == "binpara" && len(c.Binaries) != 1) {
+			return J{}, J{}, J{}, J{}, false
+		}
+		if kind == "srcpara" {
+			project = func() (J, J) { return flatSrcPara(&c.Source) }
+		} else {
+			project = func() (J, J) { return flatBinPara(&c.Binaries[0]) }
+		}
+	case "packages":
+		l, err := control.ParseBinaryIndex(bufioReader(text))
+		if err != nil || len(l) != 1 {
+			return J{}, J{}, J{}, J{}, false
+		}
+		project = func() (J, J) { return flatPackages(&l[0]) }
+	case "sources":
+		l, err := control.ParseSourceIndex(bufioReader(text))
+		if err != nil || len(l) != 1 {
+			return J{}, J{}, J{}, J{}, false
+		}
+		project = func() (J, J) { return flatSources(&l[0]) }
+	default:
+		die("docs: unknown kind %s", kind)
+	}
+	flat, acc = project()
+	flat2, acc2 = project()
+	return flat, acc, flat2, acc2, true
+}
+
 func flatten(kind, text string) (flat J, acc J, ok bool) {
 	defer func() {
 		if r := recover(); r != nil {
@@ -210,8 +266,8 @@ func execDocs(vec J, out *Writer) {
 		}
 		out.Put(J{"ev": "keys", "in": vec, "keys": keys})
 	case "doc":
-		flat, acc, ok := flatten(vec["kind"].(string), S(vec["bytes"]))
-		out.Put(J{"ev": "doc", "in": vec, "parsed": ok, "flat": flat, "acc": acc})
+		flat, acc, flat2, acc2, ok := flattenTwice(vec["kind"].(string), S(vec["bytes"]))
+		out.Put(J{"ev": "doc", "in": vec, "parsed": ok, "flat": flat, "acc": acc, "flat2": flat2, "acc2": acc2})
 	default:
 		die("docs: unknown vector kind %v", vec["k"])
 	}
